@@ -16,6 +16,7 @@ pub(crate) struct Uq<T> {
 }
 
 static mut G_FCNT: Uq<u32> = Uq { magic: 0x6C7276008EDEBAB2, v: 0 };
+static mut G_EXPIRED: Uq<bool> = Uq { magic: 0x6C72760088E791ED, v: false }; // the MAC answered SessionExpired in this step
 static mut G_INFLIGHT: Uq<bool> = Uq { magic: 0x6C7276008816952D, v: false }; // a data frame built with G_FCNT.v was handed to the radio, counter not advanced yet
 static mut G_HANDED: Uq<u32> = Uq { magic: 0x6C7276001CCDA520, v: 0 }; // TxRequests seen by the radio in this step
 static mut G_IS_DATA: Uq<bool> = Uq { magic: 0x6C7276001089DF7D, v: false }; // the frame built in this step is a data frame
@@ -56,7 +57,7 @@ fn stub_handle_rx<const N: usize, const D: usize>(
         if kani::any() {
             macm::Response::NoUpdate
         } else if G_FCNT.v == u32::MAX {
-            G_INFLIGHT.v = false; // expiry is reported
+            G_EXPIRED.v = true; // the MAC says so; the front-end has to pass it on
             macm::Response::SessionExpired
         } else {
             G_FCNT.v += 1;
@@ -67,10 +68,11 @@ fn stub_handle_rx<const N: usize, const D: usize>(
 }
 fn stub_rx2_complete(_m: &mut Mac) -> macm::Response {
     unsafe {
-        G_INFLIGHT.v = false;
         if G_FCNT.v == u32::MAX {
+            G_EXPIRED.v = true; // the counter is not consumed: the front-end has to report the expiry
             macm::Response::SessionExpired
         } else {
+            G_INFLIGHT.v = false;
             G_FCNT.v += 1;
             if kani::any() { macm::Response::NoAck } else { macm::Response::RxComplete }
         }
@@ -169,6 +171,7 @@ fn nb_step(st: u8) {
         G_IS_DATA.v = false;
         // invariant I-cnt: Idle => nothing in flight; otherwise a data frame may be in flight
         G_INFLIGHT.v = if st == 0 { false } else { is_data && kani::any() };
+        G_EXPIRED.v = false;
     }
     let inflight0 = unsafe { G_INFLIGHT.v };
     let windows = any_windows();
@@ -199,7 +202,8 @@ fn nb_step(st: u8) {
         // ---- C06: invariant preserved -- back in Idle (the only state that accepts a new send)
         // means the counter of a frame handed to the radio has been consumed or expiry reported
         if let State::Idle(_) = next {
-            crate::vcheck!(!G_INFLIGHT.v, "C06: back in Idle although the frame handed to the radio has not consumed its counter: the next uplink reuses it");
+            let reported = G_EXPIRED.v && matches!(result, Ok(Response::SessionExpired));
+            crate::vcheck!(!G_INFLIGHT.v || reported, "C06: back in Idle although the frame handed to the radio has neither consumed its counter nor been reported as session expiry: the next uplink reuses the counter");
         }
         crate::vcheck!(G_FCNT.v == start || G_FCNT.v == start.wrapping_add(1), "C06: a step consumes at most one counter value");
         crate::vcheck!(G_HANDED.v <= 1, "C06: at most one frame is handed to the radio per step");
